@@ -188,6 +188,11 @@ class AppInst:
             self.scope["state"][op[1]] = op[2]
         elif name == "state_get":
             self.log("app_state", key=op[1], val=str(self.scope["state"].get(op[1], "<unset>")))
+        elif name == "probe":
+            # keep listening after the disconnect: anything that still arrives is logged (C03:
+            # "nothing ever delivered after it"); never returns by itself
+            while True:
+                await self._recv(receive)
         elif name == "return":
             return True
         elif name == "raise":
